@@ -670,6 +670,7 @@ type Gen struct {
 	curBlock *ssa.BasicBlock
 	curPos   token.Pos
 	loopRI   map[int]*ssa.Alloc
+	loopRR   map[int]ssa.Value
 	atCallUsed map[string]bool
 	callCount map[string]int
 	curState *State
